@@ -23,7 +23,10 @@
     (and the toric space counts at most half the lattice), the diagonal count is the box height;
   * `steps_zero_iff_planar`, `steps_zero_iff_toric` — all three counts vanish exactly for the same plaquette at the same
     time; `twin_distance_zero` — a virtual plaquette and its orthogonal twin are at distance 0 in every context;
-  * `distance_nonneg`, `distance_pos` — non-negative step weights give non-negative edge weights; positive step
+  * `box_total`, `same_line_steps`, `infinite_bias_line_distance` — the box rule counts king moves (Chebyshev distance,
+    plus one closing parallel step when a tall box has odd excess); on one line there is no diagonal step and at infinite
+    bias with equal probabilities the edge weight is the taxi-cab distance along the line plus the periodic time distance;
+  * `distance_nonneg` — non-negative step weights give non-negative edge weights; positive step
     weights give a positive weight between distinct nodes of one type;
   * `infinite_bias_equal_probabilities_integer` — the special case is the plain step count `parallel + time`;
   * `planar_cluster_distance_spec`, `toric_cluster_distance_spec`, `*_cluster_distance_symm`,
@@ -176,6 +179,37 @@ theorem twin_distance_zero (R C T : Int) (c : Ctx) (wt wp wd : Rat) (v : Node)
   unfold distance
   cases c.etaNone && c.pEqQ <;> simp [Except.bind, addStep]
 
+/-- **the box rule counts king moves**: the number of space steps (parallel + diagonal) between the corners of a
+    `w × h` box is the Chebyshev distance `max w h`, plus one exactly when the box is taller than wide with `h - w` odd
+    (a diagonal zig-zag along the line direction needs one closing parallel step) -/
+theorem box_total (w h : Int) (hw : 0 ≤ w) (hh : 0 ≤ h) :
+    (box w h).1 + (box w h).2 = (if w ≥ h then w else h + (h - w) % 2) ∧
+    max w h ≤ (box w h).1 + (box w h).2 ∧ (box w h).1 + (box w h).2 ≤ max w h + 1 := by
+  unfold box
+  by_cases hwh : w ≥ h
+  · simp only [hwh, if_true]; omega
+  · simp only [hwh, if_false]; omega
+
+/-- two nodes of one type on the SAME line (row nodes with equal y, column nodes with equal x — the only pairs joined at
+    infinite bias): no diagonal step, the parallel count is the plain coordinate distance along the line -/
+theorem same_line_steps (R C T : Int) (a b : Node) (hty : a.2 = b.2)
+    (hline : if a.2 then a.1.2.2 = b.1.2.2 else a.1.2.1 = b.1.2.1) :
+    planarSteps R C T a b =
+      .ok ⟨pdist T a.1.1 b.1.1, iabs (if a.2 then a.1.2.1 - b.1.2.1 else a.1.2.2 - b.1.2.2), 0⟩ := by
+  unfold planarSteps
+  have h' : ¬ (a.2 ≠ b.2) := by simpa using hty
+  rw [if_neg h']
+  rw [← hty]
+  cases hr : a.2
+  · simp only [hr, Bool.false_eq_true, if_false] at hline ⊢
+    rw [hline]
+    have : iabs (b.1.2.1 - b.1.2.1) = 0 := by unfold iabs; split <;> omega
+    rw [this, box_zero_height _ (iabs_nonneg _)]
+  · simp only [hr, if_true] at hline ⊢
+    rw [hline]
+    have : iabs (b.1.2.2 - b.1.2.2) = 0 := by unfold iabs; split <;> omega
+    rw [this, box_zero_height _ (iabs_nonneg _)]
+
 /-! ## evaluation -/
 
 /-- infinite bias with equal probabilities: the plain step count -/
@@ -183,6 +217,16 @@ theorem infinite_bias_equal_probabilities_integer (c : Ctx) (wt wp wd : Rat) (s 
     (he : c.etaNone = true) (hq : c.pEqQ = true) (hd : s.diag = 0) :
     distance c wt wp wd s = .ok ((s.par + s.time : Int) : Rat) := by
   unfold distance; simp [he, hq, hd]
+
+/-- hence at infinite bias with equal probabilities the weight of an edge of the graph is the taxi-cab distance along
+    the line plus the periodic time distance -/
+theorem infinite_bias_line_distance (R C T : Int) (c : Ctx) (wt wp wd : Rat) (a b : Node) (hty : a.2 = b.2)
+    (hline : if a.2 then a.1.2.2 = b.1.2.2 else a.1.2.1 = b.1.2.1) (he : c.etaNone = true) (hq : c.pEqQ = true) :
+    planarDistance R C T c wt wp wd a b =
+      .ok (((iabs (if a.2 then a.1.2.1 - b.1.2.1 else a.1.2.2 - b.1.2.2) + pdist T a.1.1 b.1.1 : Int)) : Rat) := by
+  unfold planarDistance
+  rw [same_line_steps R C T a b hty hline]
+  exact infinite_bias_equal_probabilities_integer c wt wp wd _ he hq rfl
 
 /-- the evaluation succeeds as soon as every NON-ZERO count has a defined step weight -/
 theorem distance_defined (c : Ctx) (wt wp wd : Rat) (s : Steps)
